@@ -337,6 +337,11 @@ def boundary_cfgs(th):
                                 "costs": list(v)})
                 out.append({"cls": "HRevolve", "n": n, "ram": ram, "disk": 2,
                             "costs": list(v)})
+    # long period blocks with several binomial units
+    for p_, bs_, tr_ in ((35, 3, "maximum"), (18, 3, "revolve"),
+                         (48, 6, "maximum")):
+        out.append({"cls": "TwoLevel", "n": 2 * p_ + 7, "period": p_,
+                    "bs": bs_, "storage": "RAM", "traj": tr_})
     # more than 1000 checkpoint units
     out.append({"cls": "Multistage", "n": 1500, "ram": 50, "disk": 1350,
                 "traj": "revolve"})
